@@ -147,9 +147,14 @@ def resolveFields (cal : CalId) (p : CalPartial) : Out (Option String × Int × 
   let day ← resolveDay p.day false
   pure (ey.1, ey.2, code, day)
 
-/-- `Calendar::date_from_partial` for a modelled non-ISO calendar. -/
+/-- `MAX_CALENDAR_YEAR`: no calendar year or era year beyond it names a representable date. -/
+def MAX_CALENDAR_YEAR : Int := 300000
+
+/-- `Calendar::date_from_partial` for a modelled non-ISO calendar: years the library's 32-bit arithmetic could not
+    carry are refused first (`check_calendar_year`). -/
 def dateFromPartialCal (cal : CalId) (p : CalPartial) (ov : Overflow) : Out IsoDate := do
   let r ← resolveFields cal p
+  if r.2.1 < -MAX_CALENDAR_YEAR ∨ r.2.1 > MAX_CALENDAR_YEAR then .err .range else
   match fromCodes cal r.1 r.2.1 r.2.2.1 r.2.2.2 with
   | none => .err .range
   | some iso => IsoDate.newWithOverflow iso.year iso.month iso.day ov
